@@ -202,7 +202,7 @@ def run(rep, tier):
                expected="each used field <= 10 on every accepting path", found=sorted(set(bad)) or "bounded")
 
     # ---- R05.a inventory
-    ra = rep.rule("R05.a", "panic inventory from the interpreter entry", floor=300)
+    ra = rep.rule("R05.a", "panic inventory from the interpreter entry", floor=150)
     inv = cx.inventory()
     sites, reach = inv.run(["EbpfVmMbuff::execute_program"])
     rep.analysed(*sorted(reach))
@@ -229,7 +229,7 @@ def run(rep, tier):
             "language guarantee: the end address of a live slice does not wrap"),
         Row("packet-base", I, r"^Overflow\(Add\)\(\((\[T\]|slice\[T\])::as_ptr\(&\*arg\d<&\[u8\]>\) as u64\),\(\(.*\.imm as u32\) as u64\)\)$", "A",
             "assumption A-addr: slice addresses are below 2^63, so adding a 32-bit displacement cannot wrap"),
-        Row("frame-pointer", I, r"^Overflow\((Sub|Add)\)\(array<\[u64; 11\]>\[10\],\(StackUsageType::stack_usage", "A",
+        Row("frame-pointer", I, r"^Overflow\((Sub|Add)\)\((?:array|tmp|mut)<\[u64; 11\]>\[10\],\(StackUsageType::stack_usage", "A",
             "assumption A-addr: r10 is not writable by verified programs (C06) and stays within 8 * 65535 bytes of the stack top"),
         Row("usage-present", I, r"^unwrap:Option<T>::unwrap\(arg2<Option<&stack::StackUsage>>\)$", "D3",
             "the stack-usage table is Some whenever the program is Some (paired writes, C10/R10.d)", cites=("C10/R10.d",)),
